@@ -81,13 +81,13 @@ theorem impl_refines_doc (m : Nat) (recv : Val) (c : Call) (hdoc : Spec.Document
         · simp only [hc, Bool.not_true, Bool.false_eq_true, if_false]
           by_cases hkw : kw = []
           · subst hkw
-            rcases hD1 rfl with hok | ⟨hu, hcoll⟩
+            rcases hD1 rfl with hok | hu
             · rw [prepareAttrValue_plain E m recv sp v hok.1 hok.2]
               simp only [hok.1, Bool.false_and, Bool.false_eq_true, if_false, List.isEmpty_nil, if_true]
               unfold Spec.assign
               cases Spec.prepared E m recv sp v <;> rfl
             · subst hu
-              rw [prepareAttrValue_unchanged E m recv sp [] hcoll]
+              rw [prepareAttrValue_unchanged E (m+1) recv sp []]
               simp [Val.isSent, mutateAttr, lift, Spec.noop]
           · have hne : kw.isEmpty = false := by cases kw <;> simp_all
             obtain ⟨c', hty⟩ := kwOk_nonempty_spec E hkw hk
@@ -107,7 +107,7 @@ theorem impl_refines_doc (m : Nat) (recv : Val) (c : Call) (hdoc : Spec.Document
                 simp [Val.isSent, this]
                 cases Spec.build E m c' kw <;> rfl
               · subst h
-                rw [prepareAttrValue_unchanged E m recv sp kw hcoll]
+                rw [prepareAttrValue_unchanged E (m+1) recv sp kw]
                 simp [Val.isSent, mutateAttr, lift, Spec.noop]
             · have hs' : v.isSent = false := by simpa using hs
               obtain ⟨hp, hd⟩ := hD2 hkw hs'
@@ -123,35 +123,45 @@ theorem impl_refines_doc (m : Nat) (recv : Val) (c : Call) (hdoc : Spec.Document
     | some sp =>
       simp only []
       have hD := hdoc; unfold Spec.Documented at hD; rw [hop] at hD
-      obtain ⟨hU, hkv, hbase, hnest⟩ := hD sp hsp
+      obtain ⟨hUk, hkv, hbase, hnest⟩ := hD sp hsp
       clear hD hdoc
       obtain ⟨hd, hm⟩ := hbase _ rfl
       unfold updateAttr Spec.Doc.updateA
       by_cases hk : kwOk E sp.ty (kw.map (·.1)) = true
       · simp only [hk, Bool.not_true, Bool.false_eq_true, if_false]
         by_cases hc : c.cond = true
-        · simp only [hc, Bool.not_true, Bool.false_eq_true, if_false]
-          rw [mutateValue_update E m recv sp v kw hU hk hkv hd hm]
-          have hnoop : (v.isSent && (kw.isEmpty || decide (v = UNCHANGED))) = false := by
-            by_cases hs : v.isSent = true
-            · have : kw.isEmpty = false := by
-                cases kw with
-                | nil => have := hkv rfl; rw [hs] at this; cases this
-                | cons _ _ => rfl
-              simp [hs, this, hU]
-            · simp [hs]
-          simp only [hnoop, Bool.false_eq_true, if_false]
-          cases hn : Spec.updateNested E m recv sp v kw with
-          | error e => rfl
-          | ok u =>
-            simp only []
-            obtain ⟨h1, h2⟩ := hnest u hn
-            unfold withAttr
-            simp only [List.map_nil, kwOk, List.isEmpty_nil, Bool.true_or, Bool.not_true, Bool.false_eq_true,
-              if_false]
-            rw [prepareAttrValue_plain E m recv sp u h1 h2]
-            unfold Spec.assign
-            cases Spec.prepared E m recv sp u <;> rfl
+        · simp only [hc, Bool.not_true, Bool.false_eq_true, if_false, Bool.false_or]
+          by_cases hU : v = UNCHANGED
+          · have hkw := hUk hU
+            subst hU; subst hkw
+            simp [Val.isSent, lift, Spec.noop]
+          · have hkv' : kw = [] → v.isSent = false := by
+              intro h; rcases hkv h with h' | h'
+              · exact h'
+              · exact absurd h' hU
+            simp only [hU, decide_false, Bool.false_and, Bool.false_eq_true, if_false]
+            rw [mutateValue_update E m recv sp v kw hU hk hkv' hd hm]
+            have hnoop : (v.isSent && (kw.isEmpty || decide (v = UNCHANGED))) = false := by
+              by_cases hs : v.isSent = true
+              · have : kw.isEmpty = false := by
+                  cases kw with
+                  | nil => have := hkv' rfl; rw [hs] at this; cases this
+                  | cons _ _ => rfl
+                simp [hs, this, hU]
+              · simp [hs]
+            simp only [hU, decide_false] at hnoop
+            simp only [hnoop, Bool.false_eq_true, if_false]
+            cases hn : Spec.updateNested E m recv sp v kw with
+            | error e => rfl
+            | ok u =>
+              simp only []
+              obtain ⟨h1, h2⟩ := hnest u hn
+              unfold withAttr
+              simp only [List.map_nil, kwOk, List.isEmpty_nil, Bool.true_or, Bool.not_true, Bool.false_eq_true,
+                if_false]
+              rw [prepareAttrValue_plain E m recv sp u h1 h2]
+              unfold Spec.assign
+              cases Spec.prepared E m recv sp u <;> rfl
         · simp [hc, lift, Spec.noop]
       · simp [hk, lift]
   | transformA a f kt =>
@@ -176,13 +186,13 @@ theorem impl_refines_doc (m : Nat) (recv : Val) (c : Call) (hdoc : Spec.Document
             unfold withAttr
             simp only [List.map_nil, kwOk, List.isEmpty_nil, Bool.true_or, Bool.not_true, Bool.false_eq_true,
               if_false]
-            rcases hnest u hn with ⟨h1, h2⟩ | ⟨hu, hcoll⟩
+            rcases hnest u hn with ⟨h1, h2⟩ | hu
             · rw [prepareAttrValue_plain E m recv sp u h1 h2]
               simp only [h1, Bool.false_eq_true, if_false]
               unfold Spec.assign
               cases Spec.prepared E m recv sp u <;> rfl
             · subst hu
-              rw [prepareAttrValue_unchanged E m recv sp [] hcoll]
+              rw [prepareAttrValue_unchanged E (m+1) recv sp []]
               simp [Val.isSent, mutateAttr, lift, Spec.noop]
         · simp [hc, lift, Spec.noop]
       · simp [hk, lift]
@@ -231,7 +241,7 @@ theorem impl_refines_doc (m : Nat) (recv : Val) (c : Call) (hdoc : Spec.Document
         unfold Spec.Doc.withA
         simp only [List.map_nil, kwOk, List.isEmpty_nil, Bool.true_or, Bool.not_true, Bool.false_eq_true,
           if_false, if_true]
-        rcases hD' with hok | ⟨hu, hcoll⟩
+        rcases hD' with hok | hu
         · rw [prepareAttrValue_plain E m _ sp v hok.1 hok.2]
           simp only [hok.1, Bool.false_and, Bool.false_eq_true, if_false]
           unfold Spec.assign
@@ -245,7 +255,7 @@ theorem impl_refines_doc (m : Nat) (recv : Val) (c : Call) (hdoc : Spec.Document
               · simp [h1, h2, lift, Except.map]
               · simp [h1, h2, lift, Except.map]
         · subst hu
-          rw [prepareAttrValue_unchanged E m _ sp [] hcoll]
+          rw [prepareAttrValue_unchanged E (m+1) _ sp []]
           simp [Val.isSent, mutateAttrV, lift, Spec.noop, Except.map]
       | sc s => simp [Option.bind] at hsp
       | list xs => simp [Option.bind] at hsp
@@ -391,12 +401,12 @@ theorem inplace_commutes (n : Nat) (recv : Val) (c : Call) (hh : isHelper c.op =
       simp only [updateAttr]
       by_cases hk : kwOk E sp.ty (kw.map (·.1)) = true
       · simp only [hk, Bool.not_true, Bool.false_eq_true, if_false]
-        by_cases hc : c.cond = true
-        · simp only [hc, Bool.not_true, Bool.false_eq_true, if_false]
+        by_cases hc : (!c.cond || decide (v = UNCHANGED) && kw.isEmpty) = true
+        · simp only [hc, if_true]; exact commutes_same_noop recv
+        · simp only [hc, Bool.false_eq_true, if_false]
           cases mutateValue E n (E.getAttr recv sp.name) { new := v, ty := some sp.ty, attrs := kw } with
           | error e => exact commutes_same_raise recv e
           | ok u => exact commutes_withAttr E n recv sp u [] true
-        · simp only [hc, Bool.not_false, if_true]; exact commutes_same_noop recv
       · simp only [hk, Bool.not_false, if_true]; exact commutes_same_raise recv _
   | transformA a f kt =>
     simp only []
@@ -753,26 +763,44 @@ theorem if_false_noop (n : Nat) (recv : Val) (op : Op) (i : Bool) (hh : isHelper
   | transform f kt => simp only [WellFormed] at hw; simp [transformTop, hw, lift]
   | reset => simp [resetTop]
 
-/-- **unchanged_noop.** `with_a(UNCHANGED, …)` on a non-collection attribute is a no-op returning the receiver … -/
+/-- **unchanged_noop.** `with_a(UNCHANGED, …)` is a no-op returning the receiver, for every attribute
+(collections included), whatever the keywords and flags … -/
 theorem unchanged_noop (n : Nat) (recv : Val) (a : Nat) (sp : AttrSpec) (kw : Kw) (i cnd : Bool)
-    (hsp : specOf E recv a = some sp) (hk : kwOk E sp.ty (kw.map (·.1)) = true)
-    (hc : sp.ty.isCollection = false) :
-    run E (n+2) recv { op := .withA a UNCHANGED kw, inplace := i, cond := cnd } = ⟨recv, .receiver⟩ := by
+    (hsp : specOf E recv a = some sp) (hk : kwOk E sp.ty (kw.map (·.1)) = true) :
+    run E (n+1) recv { op := .withA a UNCHANGED kw, inplace := i, cond := cnd } = ⟨recv, .receiver⟩ := by
   unfold run
   simp only [hsp, withAttr, hk, Bool.not_true, Bool.false_eq_true, if_false]
   cases cnd with
   | false => rfl
   | true =>
     simp only [Bool.not_true, Bool.false_eq_true, if_false]
-    rw [prepareAttrValue_unchanged E n recv sp kw hc]
+    rw [prepareAttrValue_unchanged E n recv sp kw]
     simp [mutateAttr, Val.isSent, lift]
 
 /-- … so is `obj.a = UNCHANGED` … -/
 theorem unchanged_noop_setattr (n : Nat) (recv : Val) (a : Nat) (sp : AttrSpec)
-    (hsp : specOf E recv a = some sp) (hc : sp.ty.isCollection = false) :
-    run E (n+2) recv { op := .setattr a UNCHANGED } = ⟨recv, .receiver⟩ := by
+    (hsp : specOf E recv a = some sp) :
+    run E (n+1) recv { op := .setattr a UNCHANGED } = ⟨recv, .receiver⟩ := by
   rw [setattr_is_with]
-  exact unchanged_noop E n recv a sp [] true true hsp (by simp [kwOk]) hc
+  exact unchanged_noop E n recv a sp [] true true hsp (by simp [kwOk])
+
+/-- … `update_a(UNCHANGED)` (any fuel) … -/
+theorem unchanged_noop_update_attr (n : Nat) (recv : Val) (a : Nat) (sp : AttrSpec) (i cnd : Bool)
+    (hsp : specOf E recv a = some sp) :
+    run E n recv { op := .updateA a UNCHANGED [], inplace := i, cond := cnd } = ⟨recv, .receiver⟩ := by
+  unfold run
+  simp [hsp, updateAttr, kwOk, lift]
+
+/-- … a transform that answers UNCHANGED … -/
+theorem unchanged_noop_transform (n : Nat) (recv : Val) (a : Nat) (sp : AttrSpec) (f : Tr) (i : Bool)
+    (hsp : specOf E recv a = some sp)
+    (hf : mutateValue E (n+1) (E.getAttr recv sp.name) { transform := some f, ty := some sp.ty } = .ok UNCHANGED) :
+    run E (n+1) recv { op := .transformA a (some f) [], inplace := i } = ⟨recv, .receiver⟩ := by
+  unfold run
+  simp only [hsp, transformAttr, List.map_nil, kwOk, List.isEmpty_nil, Bool.true_or, Bool.not_true,
+    Bool.false_eq_true, if_false, hf, withAttr]
+  rw [prepareAttrValue_unchanged E n recv sp []]
+  simp [mutateAttr, Val.isSent, lift]
 
 /-- … and `update(UNCHANGED, …)`. -/
 theorem unchanged_noop_update (n : Nat) (recv : Val) (kw : Kw) (i cnd : Bool)
@@ -896,18 +924,12 @@ theorem missing_constructs_witness : ¬ MissingNoopFull := by
   revert this
   decide
 
-/-- UNCHANGED handed to a collection attribute replaces the collection by an empty one
-(finding KF-C05-unchanged-wipes-collection) … -/
-theorem unchanged_wipes_collection_witness :
-    run Ew 3 recvW { op := .withA 1 UNCHANGED [] }
-      = ⟨recvW, .fresh (.inst 0 (.cons 0 (.sc (.int 7)) (.cons 1 (.list .nil) .nil)))⟩ := by
-  decide
+/-- since fix 18d1613: UNCHANGED handed to a collection attribute keeps the collection … -/
+example : run Ew 3 recvW { op := .withA 1 UNCHANGED [] } = ⟨recvW, .receiver⟩ := by decide
 
-/-- … and `update_a(UNCHANGED)` hands back a copy instead of the receiver
-(finding KF-C05-sentinel-returns-copy). -/
-theorem update_unchanged_returns_copy_witness :
-    run Ew 3 recvW { op := .updateA 0 UNCHANGED [] } = ⟨recvW, .fresh recvW⟩ := by
-  decide
+/-- … and `update_a(UNCHANGED)` hands back the receiver (the two former findings
+KF-C05-unchanged-wipes-collection / KF-C05-sentinel-returns-copy; their failing inputs are in harness/corpus/C05). -/
+example : run Ew 3 recvW { op := .updateA 0 UNCHANGED [] } = ⟨recvW, .receiver⟩ := by decide
 
 /-! ## non-vacuity -/
 
